@@ -192,7 +192,11 @@ def build_matrix_subject(r):
                 if deco == 2:
                     s.set_character_type_at(0, ct)
                 # deco 3: the cell's annotation set is created while the cell has no character type
-                s.annotations_at(0).add_new("cellnote", "c%d" % i)
+                ca = s.annotations_at(0)
+                ca.add_new("cellnote", "c%d" % i)
+                ca.add_new("celllist", [i, "c%d" % i])   # a mutable value: must not be shared with a copy
+                if deco == 2:
+                    ca.add_bound_attribute("label", annotation_name="column")   # bound to the cell's character type (the set's owner)
     return m
 
 
